@@ -75,7 +75,8 @@ func Guard(f func()) (pi *PanicInfo) {
 		fn := ""
 		for {
 			fr, more := frames.Next()
-			if fn == "" && strings.HasPrefix(fr.Function, ModulePath) && !strings.Contains(fr.Function, "/verifshim/") {
+			if fn == "" && strings.HasPrefix(fr.Function, ModulePath) && !strings.Contains(fr.Function, "/verifshim/") &&
+				!strings.Contains(fr.Function, "/meta/utils.ByteOrder.") { // leaf helper: the caller is the root cause
 				fn = strings.TrimPrefix(fr.Function, ModulePath)
 				fn = strings.TrimPrefix(fn, "/")
 			}
